@@ -20,7 +20,7 @@ def clean_gen(extra=None):
 
 def build_jobs(prop, tier, seed, do, monitors, streams=None, want=None, monitor_opts=None, per_job=None,
                njobs=None, jit_share=0.3, orders=0, configs="random", configs_per_model=3, cost_share=0.2,
-               objectives_per_model=2):
+               objectives_per_model=2, task_extra=None):
     q = tier == "quick"
     want = want or [prop]
     njobs = njobs or (14 if q else 16)
@@ -40,8 +40,10 @@ def build_jobs(prop, tier, seed, do, monitors, streams=None, want=None, monitor_
             "objectives_per_model": objectives_per_model,
             "max_points": 6000 if q else 20000, "deadline_s": 100 if q else 1000, "stream": "clean",
         }
+        if task_extra:
+            task.update(task_extra)
         jobs.append(Job("framework.props.models", "run_models", task, mode=mode,
-                        timeout=300 if q else 1800, tag="clean:%s:%d" % (mode, j)))
+                        timeout=300 if q else 1800, tag="clean:%s:%d" % (mode, j), stall_s=60 if q else 120))
     # targeted streams: one per open mechanism that a model can exercise (interpreted: hangs are cut by the budget)
     om = open_mechanisms()
     if "gcc_zero_capacity" in om:
@@ -53,8 +55,25 @@ def build_jobs(prop, tier, seed, do, monitors, streams=None, want=None, monitor_
             "do": do, "max_points": 3000, "deadline_s": 100 if q else 600, "stream": "targeted:gcc_zero_capacity",
             "objectives_per_model": 1,
         }
+        if task_extra:
+            task.update({k: v for k, v in task_extra.items() if k in ("nontrivial",)})
         jobs.append(Job("framework.props.models", "run_models", task, mode="interp", timeout=300 if q else 1200,
                         tag="targeted:gcc_zero_capacity"))
+    if "affine_eq_single_round_skip_self" in om and "fixpoint" in monitors:
+        task = {
+            "props": want, "seed": seed * 37 + 11, "count": 60 if q else 600,
+            "gen": clean_gen({"types": ["affine_eq", "affine_eq", "affine_leq", "alldifferent"], "max_props": 2,
+                              "circuit": 0.0, "repeat": False, "widths": [1, 2, 3, 4]}),
+            "configs": "random", "configs_per_model": 2, "monitors": monitors, "monitor_opts": monitor_opts or {},
+            "do": ["enum"], "max_points": 3000, "deadline_s": 100 if q else 600,
+            "stream": "targeted:affine_eq_single_round_skip_self",
+            "fixed_models": [{"doms": [[3, 4], [3, 4], [2, 4]], "idx": [0, 1, 2], "off": [0, 0, 0],
+                              "props": [[[0, 1, 2], "affine_eq", [-3, 1, 2, -3]]]}],
+        }
+        if task_extra:
+            task.update(task_extra)
+        jobs.append(Job("framework.props.models", "run_models", task, mode="interp", timeout=300 if q else 1200,
+                        tag="targeted:affine_eq"))
     if streams:
         jobs.extend(streams)
     return jobs
@@ -65,8 +84,12 @@ def aggregate(rep, jobs):
     nontrivial = set()
     for j in jobs:
         if j.status != "ok":
-            rep.job_problem(j)
-            continue
+            if j.status == "timeout" and j.stalled_case is not None:
+                resolve_stall(rep, j)
+            else:
+                rep.job_problem(j)
+            if not j.result:
+                continue
         r = j.result
         rep.evaluations += r["evals"]
         hashes.update(r["hashes"])
@@ -93,6 +116,49 @@ def aggregate(rep, jobs):
             rep.count("failures." + k, v)
     rep.distinct = nontrivial
     rep.counters["distinct_runs"] = len(hashes)
+
+
+def resolve_stall(rep, j):
+    """Watchdog protocol (DESIGN section 2, plane C): a child that stopped making progress is not a verdict.
+    The case it was executing is replayed on plane A under the step budget; only a logical budget violation there,
+    or a second stall of the same case run alone with 10x the patience, is reported."""
+    case = j.stalled_case
+    rep.count("stalled_jobs")
+    rj = Job("framework.props.models", "replay_case", {"case": case}, mode="interp", timeout=600)
+    common.run_jobs([rj])
+    if rj.status == "ok":
+        bad = [f for f in rj.result["fails"] if f["prop"] == rep.prop or f["kind"] in ("step_budget",)]
+        if bad:
+            for f in rj.result["fails"]:
+                if f["prop"] == rep.prop:
+                    w = dict(f, model=case["model"], cfg=case["cfg"], what=case.get("what"), mode="interp",
+                             where="replay of the case a %s child stalled on" % j.mode)
+                    rep.violation(w)
+            if not any(f["prop"] == rep.prop for f in rj.result["fails"]):
+                rep.inconclusive.append("child stalled on a case that exceeds the step budget under interpretation "
+                                        "(a C04 matter): %r" % (case,))
+            return
+        # terminates under interpretation: run the case alone in the original mode with 10x the patience
+        patience = 10 * (j.stall_s or 60)
+        sj = Job("framework.props.models", "replay_case", {"case": case}, mode=j.mode, timeout=patience)
+        common.run_jobs([sj])
+        if sj.status == "ok":
+            rep.count("stalls_resolved_as_slow")
+            for f in sj.result["fails"]:
+                if f["prop"] == rep.prop:
+                    rep.violation(dict(f, model=case["model"], cfg=case["cfg"], what=case.get("what"), mode=j.mode))
+            return
+        if sj.status == "timeout":
+            w = {"prop": rep.prop, "kind": "compiled_mode_hang", "model": case["model"], "cfg": case["cfg"],
+                 "what": case.get("what"), "mode": j.mode,
+                 "detail": "the case terminates under interpretation within the step budget but the %s run did not "
+                           "return within %ds twice" % (j.mode, patience)}
+            if rep.prop in ("C04", "C15", "C02", "C03"):
+                rep.violation(w)
+            else:
+                rep.inconclusive.append("compiled-mode hang on %r" % (case,))
+            return
+    rep.job_problem(j)
 
 
 def replay_generic(prop, rep_json, monitors=("budget",)):
